@@ -391,12 +391,14 @@ func (fr *Frame) enterLoop(li *loopInfo, b *ssa.BasicBlock, ins []edge, cur *Sta
 	// 2. invariants hold on entry
 	for i, c := range li.invs {
 		env := fr.contractEnv(cur, pc)
-		g, err := env.evalBool(c.Expr)
+		gs, err := env.evalConjuncts(c.Expr)
 		if err != nil {
 			vc.contractError(c, err)
 			continue
 		}
-		vc.oblige("loopinit", fmt.Sprintf("%s/loop%d/init#%d", key, li.num, i+1), c.Tags, pc, g, b.Instrs[0].Pos(), c.Text)
+		for j, g := range gs {
+			vc.oblige("loopinit", fmt.Sprintf("%s/loop%d/init#%d.%d", key, li.num, i+1, j+1), c.Tags, pc, g, b.Instrs[0].Pos(), c.Text)
+		}
 	}
 	// 3. havoc everything the body may change
 	blocks := fr.loopBlocks(li)
@@ -537,12 +539,14 @@ func (fr *Frame) backEdge(from, to *ssa.BasicBlock, cond T, st *State) {
 	}
 	for i, c := range li.invs {
 		env := fr.contractEnv(st, cond)
-		g, err := env.evalBool(c.Expr)
+		gs, err := env.evalConjuncts(c.Expr)
 		if err != nil {
 			vc.contractError(c, err)
 			continue
 		}
-		vc.oblige("loopstep", fmt.Sprintf("%s/loop%d/step#%d", key, li.num, i+1), c.Tags, cond, g, pos, c.Text)
+		for j, g := range gs {
+			vc.oblige("loopstep", fmt.Sprintf("%s/loop%d/step#%d.%d", key, li.num, i+1, j+1), c.Tags, cond, g, pos, c.Text)
+		}
 	}
 	for i, c := range li.decs {
 		if i >= len(li.decVals) || li.decVals[i] == "" {
